@@ -30,6 +30,14 @@ claimed["C03"] = dict(
     technique="deterministic simulation: generated writes onto a simulated disk under controlled map-iteration order, fsck invariant after every acknowledged write",
 )
 
+claimed["C01"] = dict(
+    level="exploration",
+    text="Seeded search over font values and files for the clauses that quantify over nondeterminism and history: the same font written under four controlled map-iteration orders, at different simulated instants (clock jumping >= 25 h per read), twice on one value and on a Clone must give identical bytes and leave the value untouched; every accepted file (corpus, written generated fonts, and survivors of the stored-data fault catalogue) must reach a byte fixed point over three read/write generations, each run under another map order and clock. The lossless clause for constructed fonts is evaluated on the same runs as an incidental field-by-field oracle.",
+    design="3 C01",
+    note="Trusted: the typed/reflective font comparer (floats to relative 1e-8), the simulated clock and map-order seam. Not decided: losslessness of fields with read-side precedence rules (IsBold, IsRegular) and of lookup-list shapes the encoders normalise; those are only covered through the fixed-point clause.",
+    technique="deterministic simulation: controlled map-iteration order + simulated jumping clock + stored-data fault survivors, byte-equality and fixed-point oracles over write/read generations",
+)
+
 pending = {k: PENDING_REASON for k in ["C01", "C02", "C03", "C07", "C15", "C16", "C18", "C19", "C20"] if k not in claimed}
 
 not_applicable = {
